@@ -532,7 +532,9 @@ def run(prop, tier, seed, a, scratch, t_start):
 
     # vacuity: the family must have reached its oracle
     vac = spec.get('vacuity')
-    if vac and not a.only and not a.limit:
+    if vac and not a.only and not a.limit and not viols:
+        # (with counterexamples at hand the run is not vacuous: they are replayed and reported below; a code change can
+        # make the oracle's target unreachable exactly by violating the property)
         msg = vac(results, extra)
         if not msg and not viols:
             tot = sum(r_['paths'] for r_ in results)
